@@ -401,15 +401,35 @@ Definition call_authn_response_init : pyval -> pyval -> pyval -> pyval := fun _ 
 (* ================================================================================================ *)
 (* 5. Base.__init__ = resolve: the option values in force ("true" -> True, unset -> the default of the table) *)
 
-Definition enc_optv (v : optv) : pyval := match v with Unset => PNone | B b => PBool b | StrTrue => PStr "true" end.
-(* self.config.getattr(attr, "sp") for the three options; nothing else is configured *)
-Definition ext_getattr (o_wr o_wa o_wor : optv) : pyval -> pyval -> pyval -> pyval := fun _ attr _ =>
-  match attr with
-  | PStr n => if String.eqb n "want_response_signed" then enc_optv o_wr
-              else if String.eqb n "want_assertions_signed" then enc_optv o_wa
-              else if String.eqb n "want_assertions_or_response_signed" then enc_optv o_wor else PNone
+(* what the configuration object stores, as a Python value; the configured option values of the earlier rounds embed *)
+Definition enc_sval (v : sval) : pyval := match v with SNone => PNone | SBool b => PBool b | SText s => PStr s end.
+Definition sval_of (v : optv) : sval := match v with Unset => SNone | B b => SBool b | StrTrue => SText "true" end.
+Definition enc_optv (v : optv) : pyval := enc_sval (sval_of v).
+(* self.config.getattr(attr, context) on a configuration OBJECT (round 4): the three options as stored for the SP
+   (context "sp"), `other` under every other context ("idp", "aa", "": the want_* names are arguments of no other
+   section, so a loaded object has nothing there, but the theorem lets anything be there); context None reads under
+   the object's current context; no other attribute is configured *)
+Definition ctx_of_str (s : string) : option octx :=
+  if String.eqb s "sp" then Some XSp else if String.eqb s "idp" then Some XIdp
+  else if String.eqb s "aa" then Some XAa else if String.eqb s "" then Some XNo else None.
+Definition ext_getattr_ctx (o_wr o_wa o_wor other : sval) (cur : octx) : pyval -> pyval -> pyval -> pyval := fun _ attr ctx =>
+  let under x := match x with XSp => (o_wr, o_wa, o_wor) | _ => (other, other, other) end in
+  let answer x :=
+    match attr with
+    | PStr n => let '(a, b, c) := under x in
+                if String.eqb n "want_response_signed" then enc_sval a
+                else if String.eqb n "want_assertions_signed" then enc_sval b
+                else if String.eqb n "want_assertions_or_response_signed" then enc_sval c else PNone
+    | _ => PErr
+    end in
+  match ctx with
+  | PNone => answer cur
+  | PStr c => match ctx_of_str c with Some x => answer x | None => PNone end
   | _ => PErr
   end.
+(* the SPConfig of the earlier rounds: current context "sp", nothing under the other contexts *)
+Definition ext_getattr (o_wr o_wa o_wor : optv) : pyval -> pyval -> pyval -> pyval :=
+  ext_getattr_ctx (sval_of o_wr) (sval_of o_wa) (sval_of o_wor) SNone XSp.
 Definition ext_entity_init : pyval -> pyval := fun _ => PNone.
 Definition ext_population : pyval -> pyval := fun _ => PObj [("__class__", PStr "Population")].
 Definition ext_lock : pyval := PObj [("__class__", PStr "lock")].
@@ -442,6 +462,112 @@ Lemma base_init_state o_wr o_wa o_wor :
   = sp_ready (resolve o_wr want_response_signed_default) (resolve o_wa want_assertions_signed_default)
              (resolve o_wor want_assertions_or_response_signed_default).
 Proof. destruct o_wr as [|[|]|], o_wa as [|[|]|], o_wor as [|[|]|]; vm_compute; reflexivity. Qed.
+
+(* round 4: the same for every configuration OBJECT — whatever its current context, whatever sits under the other
+   contexts and however the values are spelled, Base.__init__ reads the options stored for the SP as fix 6bdc97cd
+   reads them (Model.as_optv), and raises SAMLError when one of them is an unreadable word.  Proved by one evaluation
+   over a SAMPLE of objects (the translated code is not run symbolically on an arbitrary str): the stored triples
+   `all_triples` = {absent, True, False, "true"}^3 and every one of 13 texts at every one of the three options next to
+   {absent, "FALSE"}^2, x value elsewhere in {absent, "False"} x the 4 current contexts = 1760 objects. *)
+Definition all_optv := [Unset; B true; B false; StrTrue].
+Definition all_octx := [XSp; XIdp; XAa; XNo].
+Definition all_texts := ["true"; "false"; "True"; "FALSE"; "no"; "0"; " false "; ""; "maybe"; "yes"; "1"; " ON "; "off"].
+Definition all_other := [SNone; SText "False"].
+Definition small_sval := [SNone; SText "FALSE"].
+Definition all_triples : list (sval * sval * sval) :=
+  (flat_map (fun a => flat_map (fun b => map (fun c => (sval_of a, sval_of b, sval_of c)) all_optv) all_optv) all_optv
+   ++ flat_map (fun t => flat_map (fun a => flat_map (fun b => [(SText t, a, b); (a, SText t, b); (a, b, SText t)]) small_sval) small_sval)
+               all_texts)%list.
+Lemma in_all_optv v : In v all_optv. Proof. destruct v as [|[|]|]; cbn; auto 6. Qed.
+Lemma in_all_octx x : In x all_octx. Proof. destruct x; cbn; auto 6. Qed.
+
+Definition sval_eqb (a b : sval) : bool :=
+  match a, b with
+  | SNone, SNone => true | SBool x, SBool y => Bool.eqb x y | SText x, SText y => String.eqb x y | _, _ => false
+  end.
+Lemma sval_eqb_eq a b : sval_eqb a b = true -> a = b.
+Proof.
+  destruct a, b; cbn; intros H; try discriminate; try reflexivity.
+  - apply Bool.eqb_prop in H. congruence.
+  - apply String.eqb_eq in H. congruence.
+Qed.
+Definition triple_eqb (x y : sval * sval * sval) : bool :=
+  let '(a, b, c) := x in let '(a', b', c') := y in sval_eqb a a' && sval_eqb b b' && sval_eqb c c'.
+Definition listed_b (t : sval * sval * sval) : bool := existsb (triple_eqb t) all_triples.
+Lemma listed_b_in t : listed_b t = true -> In t all_triples.
+Proof.
+  unfold listed_b. rewrite existsb_exists. intros ([[a' b'] c'] & Hin & He). destruct t as [[a b] c]. cbn in He.
+  apply andb_true_iff in He. destruct He as [He H3]. apply andb_true_iff in He. destruct He as [H1 H2].
+  apply sval_eqb_eq in H1, H2, H3. subst. exact Hin.
+Qed.
+
+Definition base_init_ctx (o_wr o_wa o_wor other : sval) (cur : octx) : pyval :=
+  src2_base_init ext_entity_init ext_population ext_lock (ext_getattr_ctx o_wr o_wa o_wor other cur)
+                 sp_after_entity_init PNone PNone PNone (PStr "") (PStr "") PNone.
+
+(* what the model says the constructor leaves: the object with the values in force, or SAMLError *)
+Definition base_init_expected (o_wr o_wa o_wor : sval) : pyval :=
+  match as_optv o_wr, as_optv o_wa, as_optv o_wor with
+  | Some a, Some b, Some c => sp_ready (resolve a want_response_signed_default) (resolve b want_assertions_signed_default)
+                                        (resolve c want_assertions_or_response_signed_default)
+  | _, _, _ => PExc "SAMLError"
+  end.
+
+Lemma base_init_ctx_table_ok :
+  forallb (fun t : sval * sval * sval => forallb (fun other => forallb (fun cur =>
+    pyval_eqb (state_of (base_init_ctx (fst (fst t)) (snd (fst t)) (snd t) other cur))
+              (base_init_expected (fst (fst t)) (snd (fst t)) (snd t)))
+  all_octx) all_other) all_triples = true.
+Proof. vm_compute. reflexivity. Qed.
+
+Lemma base_init_ctx_state o_wr o_wa o_wor other cur :
+  listed_b (o_wr, o_wa, o_wor) = true -> In other all_other ->
+  state_of (base_init_ctx o_wr o_wa o_wor other cur) = base_init_expected o_wr o_wa o_wor.
+Proof.
+  intros I1 I4. apply listed_b_in in I1. pose proof base_init_ctx_table_ok as H.
+  rewrite forallb_forall in H; specialize (H _ I1). rewrite forallb_forall in H; specialize (H other I4).
+  enum H cur in_all_octx. apply pyval_eqb_eq. exact H.
+Qed.
+
+(* a client whose options are written in the sampled spellings *)
+Definition listed (k : client) : Prop := listed_b (stored (k_wr k), stored (k_wa k), stored (k_wor k)) = true.
+
+Definition base_init_client (k : client) : pyval :=
+  base_init_ctx (config_object k XSp NWr) (config_object k XSp NWa) (config_object k XSp NWor) SNone (current_ctx k).
+
+Lemma base_init_client_state k : listed k ->
+  state_of (base_init_client k)
+  = match read_config k with
+    | Some c => sp_ready (resolve (c_wr c) want_response_signed_default) (resolve (c_wa c) want_assertions_signed_default)
+                         (resolve (c_wor c) want_assertions_or_response_signed_default)
+    | None => PExc "SAMLError"
+    end.
+Proof.
+  intros L. unfold listed in L. unfold base_init_client. destruct (config_object_sp k) as (H1 & H2 & H3).
+  rewrite H1, H2, H3. rewrite (base_init_ctx_state _ _ _ SNone (current_ctx k) L) by (cbn; auto).
+  unfold base_init_expected, read_config, obj_getattr. rewrite H1, H2, H3.
+  destruct (as_optv (stored (k_wr k))), (as_optv (stored (k_wa k))), (as_optv (stored (k_wor k))); reflexivity.
+Qed.
+
+(* the clients of the earlier rounds and every client that spells one option as one of the 13 texts are listed *)
+Example listed_examples :
+  listed (client_of {| c_wr := StrTrue; c_wa := B false; c_wor := Unset; c_only := Unset |})
+  /\ listed {| k_deliver := DObject CIdp; k_assigned := Some XAa; k_proxy := true; k_wr := WSet (PT " false "); k_wa := WDict (PT "FALSE");
+               k_wor := WUnset; k_only := Unset |}
+  /\ listed {| k_deliver := DDict; k_assigned := None; k_proxy := false; k_wr := WUnset; k_wa := WUnset; k_wor := WDict (PT "maybe"); k_only := Unset |}.
+Proof. repeat split; vm_compute; reflexivity. Qed.
+
+Theorem src2_base_init_client_is_model : forall k : client, listed k ->
+  match read_config k with
+  | Some c => options_of (state_of (base_init_client k))
+              = PList [PBool (resolve (c_wr c) want_response_signed_default); PBool (resolve (c_wa c) want_assertions_signed_default);
+                       PBool (resolve (c_wor c) want_assertions_or_response_signed_default)]
+  | None => state_of (base_init_client k) = PExc "SAMLError"
+  end.
+Proof.
+  intros k L. rewrite (base_init_client_state k L). destruct (read_config k) as [c|]; [|reflexivity].
+  destruct (resolve (c_wr c) _), (resolve (c_wa c) _), (resolve (c_wor c) _); vm_compute; reflexivity.
+Qed.
 
 (* ================================================================================================ *)
 (* 6. Base.parse_authn_request_response: which attribute of the SP becomes which keyword of _parse_response *)
@@ -518,3 +644,15 @@ Corollary src2_chain_parse_message : forall (c : config) (m : msg),
   with RIdentity => true | RExc _ => false end
   = parse_message c m.
 Proof. intros c m r a. rewrite src2_chain_is_model, core_exc_core. reflexivity. Qed.
+
+(* round 4: the same chain from a configuration OBJECT of any class / current context / delivery, options in the
+   sampled spellings, when the constructor does not raise *)
+Corollary src2_chain_client : forall (k : client) (c : config) (m : msg), listed k -> read_config k = Some c ->
+  let r := look (resolve (c_only c) only_use_keys_in_metadata_default) (r_who m) (r_schema_ok m) (m_rs m) in
+  let a := look (resolve (c_only c) only_use_keys_in_metadata_default) (a_issuer m) (has_issuer (a_who m)) (m_as m) in
+  match outcome_of (chain_run (state_of (base_init_client k)) r a (issuers_match m) (m_bind m))
+  with RIdentity => true | RExc _ => false end
+  = parse_message c m.
+Proof.
+  intros k c m L E r a. rewrite (base_init_client_state k L), E, <- base_init_state. apply src2_chain_parse_message.
+Qed.
